@@ -4,6 +4,7 @@
   form; statements hold for every well-nested token list, at any nesting depth.
 -/
 import Djc.Proofs.Render
+import Djc.Proofs.Leaf
 namespace Djc.Props.C14
 open Djc.Tpl Djc.Render Djc.Proofs.Render
 
@@ -90,5 +91,66 @@ example : addRootAttrs ["i".toList]
      .opn "span".toList [], .cls "span".toList] =
     [.opn "div".toList ["i".toList], .opn "p".toList [], .text "x".toList, .cls "p".toList, .cls "div".toList, .text "t".toList,
      .opn "span".toList ["i".toList], .cls "span".toList] := by decide
+
+/-- **End to end for one component: the id on the root elements is the id `Component.id` reports.**  A component tag
+with an empty body where no component encloses it, template in the plain fragment, data from the call — through the
+whole deferred pipeline (renderer, attribute pass, placeholder pass).  The output is the render marker followed by the
+template's own tokens (`toks`: what the reference interpreter prints for the template in the component's context, in
+which `Component.id` — data source `selfId` — is the box of the id `w.nextId`) with exactly `addRootAttrs` of *that same
+id* applied: by `root_element_tagged` / `nested_untouched` every root element carries it, nothing below does. -/
+theorem leaf_component_roots_carry_reported_id (env : Env) (i : Nat) (name : Str) (kwargs : List (Str × Expr))
+    (only dyn : Bool) (ctx ctx' : Ctx) (w : World) (d : CompDef) (toks : List Tok) (st : Nat)
+    (hctx' : ctx' = if only || env.isolated then isolatedCopy ctx else ctx)
+    (hr : env.raiseAt = none) (hd : findDef env name = some d) (hdyn : isDynName name = false)
+    (hp : Djc.Proofs.Plain.plainL d.template = true) (hsrc : d.data.all (fun kv => Djc.Proofs.Leaf.pureSrc kv.2) = true)
+    (hsteps : ¬ w.steps ≥ env.maxSteps) (hgcd : w.gcds < env.maxInst) (hext : isExtracting ctx = false)
+    (hpar : ∀ p, ctxGet ctx' compKey ≠ some (.compRef p)) (hprov : w.provideCache = [])
+    (hf1 : alGet w.nextId w.ctxCache = none) (hf2 : alGet w.nextId w.rendererCache = none)
+    (hf3 : alGet w.nextId w.childAttrs = none) (hf4 : w.allRefIds.contains w.nextId = false)
+    (hc : Djc.Proofs.Plain.ctxFree (Djc.Proofs.Leaf.leafCtx ctx' w.nextId (evalKwargs ctx kwargs) d) = true)
+    (hok : Djc.Proofs.Plain.pNodes env.maxSteps (i + 1) d.template
+      (Djc.Proofs.Leaf.leafCtx ctx' w.nextId (evalKwargs ctx kwargs) d) (w.steps + 1) = (.ok toks, st)) :
+    ((renderNode env (i + 6) (.comp name kwargs only dyn []) ctx).run.run w).1 =
+        .ok (.marker name w.nextId :: addRootAttrs [idAttr w.nextId] toks) ∧
+      (∀ out, (out, Src.selfId) ∈ d.data →
+        Djc.Proofs.Leaf.srcVal w.nextId (evalKwargs ctx kwargs) Src.selfId = Val.idBox w.nextId) := by
+  rw [Djc.Proofs.Leaf.leaf_component env i name kwargs only dyn ctx ctx' w d toks st hctx' hr hd hdyn hp hsrc hsteps hgcd hext
+    hpar hprov hf1 hf2 hf3 hf4 hc hok]
+  exact ⟨rfl, fun _ _ => rfl⟩
+
+
+/-! ### the hypotheses of `leaf_component_roots_carry_reported_id` are satisfiable -/
+
+section LeafExample
+deriving instance DecidableEq for Err
+deriving instance DecidableEq for Except
+
+def exDef : CompDef :=
+  { name := "c0".toList,
+    template := [.elem "div".toList [.out (.var ["a".toList]), .elem "p".toList []], .out (.var ["x".toList]), .text "t".toList],
+    data := [("cid".toList, .selfId), ("a".toList, .kwarg "a".toList)] }
+def exEnv : Env := { isolated := true, lib := [exDef] }
+def exCtx : Ctx := rootCtx [("x".toList, .str "X".toList)]
+
+/-- `{% component "c0" a="A" %}{% endcomponent %}` on a page with a variable `x`, isolated mode, empty world: the
+element at the root carries the id, the nested one does not, the page's `x` is not visible in the component (it
+prints as the empty string), `a` arrives. -/
+example :
+    ((renderNode exEnv 14 (.comp "c0".toList [("a".toList, .lit "A".toList)] false false []) exCtx).run.run {}).1 =
+      .ok [.marker "c0".toList 1, .opn "div".toList [idAttr 1], .text "A".toList, .opn "p".toList [], .cls "p".toList,
+           .cls "div".toList, .text [], .text "t".toList] := by
+  have h0 : (ctxGet (isolatedCopy exCtx) compKey).isNone = true := by decide +kernel
+  have hpar : ∀ p, ctxGet (isolatedCopy exCtx) compKey ≠ some (.compRef p) := by
+    intro p hp; rw [hp] at h0; cases h0
+  have hfd : findDef exEnv "c0".toList = some exDef := by
+    simp [findDef, exEnv, exDef]
+  have h := (leaf_component_roots_carry_reported_id exEnv 8 "c0".toList [("a".toList, .lit "A".toList)] false false exCtx
+    (isolatedCopy exCtx) {} exDef
+    [.opn "div".toList [], .text "A".toList, .opn "p".toList [], .cls "p".toList, .cls "div".toList, .text [], .text "t".toList] 6
+    rfl rfl hfd (by decide +kernel) (by decide +kernel) (by decide +kernel) (by decide +kernel)
+    (by decide +kernel) (by decide +kernel) hpar rfl rfl rfl rfl rfl (by decide +kernel) (by decide +kernel)).1
+  rw [h]
+  decide +kernel
+end LeafExample
 
 end Djc.Props.C14
